@@ -198,6 +198,7 @@ func (g *TG) Struct(depth int) reflect.Type {
 	nf := g.R.IntN(maxf + 1)
 	var fs []reflect.StructField
 	used := map[int]bool{}
+	usedNames := map[string]bool{}
 	for i := 0; i < nf; i++ {
 		idx := fieldIndexes[g.R.IntN(len(fieldIndexes))]
 		if g.R.IntN(6) == 0 {
@@ -223,7 +224,12 @@ func (g *TG) Struct(depth int) reflect.Type {
 		opt := g.option(t)
 		tg := fmt.Sprintf(`plenc:"%d%s"`, idx, opt)
 		if g.JSONTags && g.R.IntN(4) == 0 {
-			tg += fmt.Sprintf(` json:%q`, jsonNames[g.R.IntN(len(jsonNames))])
+			// descriptor names stay unique within a struct (duplicate keys have no meaning in JSON)
+			jn := jsonNames[g.R.IntN(len(jsonNames))]
+			if base, _, _ := strings.Cut(jn, ","); base == "" || !usedNames[base] {
+				usedNames[base] = true
+				tg += fmt.Sprintf(` json:%q`, jn)
+			}
 		}
 		fs = append(fs, reflect.StructField{Name: fmt.Sprintf("F%d", i), Type: t, Tag: reflect.StructTag(tg)})
 	}
